@@ -45,8 +45,20 @@ def run_property(prop, tier, replay=None):
     if fam_names:
         import multiprocessing
         ctx = multiprocessing.get_context("fork")
+        limit = FAMILY_TIMEOUT[tier]
         with ctx.Pool(min(len(fam_names), 6)) as pool:
-            fam_results = pool.starmap(_run_one_family, [(f, inputs, fam_seeds[f]) for f in fam_names])
+            pending = [(f, pool.apply_async(_run_one_family, (f, inputs, fam_seeds[f], limit))) for f in fam_names]
+            t_fam = time.time()
+            for f, job in pending:
+                try:
+                    fam_results.append(job.get(timeout=max(60, limit + 300 - (time.time() - t_fam))))
+                except Exception as e:  # pylint: disable=broad-except
+                    # the worker did not come back (the real code hangs in C code or ignores the deadline)
+                    r = corr.FamilyResult(f)
+                    r.errors.append(f"family did not finish within {limit + 300}s: {type(e).__name__} "
+                                    "(the real function does not return on some input)")
+                    fam_results.append(r)
+            pool.terminate()
     for res in fam_results:
         fname = res.name
         obligations.append({"kind": "correspondence", "name": fname, "discharged": res.ok,
@@ -169,10 +181,23 @@ def run_property(prop, tier, replay=None):
     return exit_code
 
 
-def _run_one_family(fname, inputs, fseed):
+FAMILY_TIMEOUT = {"quick": 1200, "thorough": 5400}
+
+
+class FamilyDeadline(BaseException):
+    """raised inside a family worker by the interval timer (BaseException: not swallowed by `except Exception`)"""
+
+
+def _run_one_family(fname, inputs, fseed, limit=None):
     from . import props
+    import signal
     import time as _t
     t0 = _t.time()
+    if limit:
+        def _deadline(signum, frame):
+            raise FamilyDeadline()
+        signal.signal(signal.SIGALRM, _deadline)
+        signal.setitimer(signal.ITIMER_REAL, limit, 20)
     fam = props.FAMILIES[fname]
     need = [m.replace(".", "/") + ".vo" for m in fam.imports]
     if any(not os.path.exists(os.path.join(common.COQ, n)) for n in need):
@@ -182,10 +207,18 @@ def _run_one_family(fname, inputs, fseed):
     try:
         cases = list(fam.cases(inputs, random.Random(fseed)))
         res = corr.run_family(fam, cases)
+    except FamilyDeadline:
+        import traceback
+        res = corr.FamilyResult(fname)
+        res.errors.append(f"family did not finish within {limit}s; the real function was still running here:\n"
+                          + traceback.format_exc()[-1800:])
     except Exception:  # pylint: disable=broad-except
         import traceback
         res = corr.FamilyResult(fname)
         res.errors.append("harness error: " + traceback.format_exc()[-1500:])
+    finally:
+        if limit:
+            signal.setitimer(signal.ITIMER_REAL, 0)
     res.wall = _t.time() - t0
     # keep the result small for pickling
     res.mismatches = res.mismatches[:20]
